@@ -593,6 +593,66 @@ def run(lines, out, args):
                 elif any(x != new for x in later):
                     got = ("FAIL: a registry between a generation-checking registry and the top was re-based (%s); %s on the generation-checking "
                            "registry keeps answering %r, its current chain holds %r" % ("A2" if flavour == "push" else "A1", ep, later, new))
+            elif scen == "eqhook":
+                # (generation-checking flavour) the generations of the base registries are compared with the snapshot: an `__eq__`
+                # written in Python (`_generation` is whatever the base registry hands out) makes the lookup object take a NEW
+                # snapshot in the middle of that comparison.  The members of the old snapshot are referenced by the snapshot only;
+                # their finalizer logs (and resurrects them): none may be compared after it has been finalized
+                events, graveyard = [], []
+
+                class Gen:
+                    hook = None
+                    __hash__ = None
+
+                    def __init__(self, owner, n):
+                        self.owner, self.n = owner, n
+
+                    def __add__(self, k):
+                        return self.n + k
+
+                    def __eq__(self, other):
+                        events.append(("eq", id(self)))
+                        hook, Gen.hook = Gen.hook, None
+                        if hook is not None:
+                            hook()
+                        return isinstance(other, Gen) and self.n == other.n
+
+                    def __ne__(self, other):
+                        return not self.__eq__(other)
+
+                    def __del__(self):
+                        events.append(("finalized", id(self)))
+                        graveyard.append(self)
+
+                class GBase(A.VerifyingAdapterRegistry):
+                    label = None
+                    gen = 0
+
+                    def _get(self):
+                        return Gen(self.label, self.gen)
+
+                    def _set(self, value):
+                        self.gen = value
+                    _generation = property(_get, _set)
+                b1, b2 = GBase(), GBase()
+                b1.label, b2.label = "b1", "b2"
+                reg = A.VerifyingAdapterRegistry((b1, b2))
+                reg.register((IR,), IP, "", fac1)
+                reg.subscribe((IR,), IP, fac1)
+                ask(reg, ep, ob)
+                del events[:]
+                Gen.hook = lambda: reg._v_lookup.changed(None)
+                first = ask(reg, ep, ob)
+                fin = {}
+                for i_, ev in enumerate(events):
+                    if ev[0] == "finalized":
+                        fin.setdefault(ev[1], i_)
+                late = [i_ for i_, ev in enumerate(events) if ev[0] == "eq" and ev[1] in fin and fin[ev[1]] < i_]
+                if late:
+                    got = ("FAIL: the comparison of the generation snapshot inside %s went on reading a member of the snapshot AFTER the snapshot "
+                           "had been released (a Python __eq__ made the lookup object take a new one): use after free" % ep)
+                elif first != expect(ep, fac1):
+                    got = "FAIL: %s answered %r" % (ep, first)
             elif scen == "delleak":
                 # the destructor re-entry of `delhook`, repeated: every round a cached factory dies inside the cache invalidation and its
                 # destructor performs a lookup (for a generation-checking registry: a complete nested changed()).  Nothing may be left
